@@ -21,6 +21,7 @@
 #include <etl/_type_traits/is_nothrow_move_constructible.hpp>
 #include <etl/_type_traits/is_nothrow_swappable.hpp>
 #include <etl/_type_traits/is_same.hpp>
+#include <etl/_type_traits/is_swappable.hpp>
 #include <etl/_type_traits/type_identity.hpp>
 #include <etl/_utility/forward.hpp>
 #include <etl/_utility/index_sequence.hpp>
@@ -199,6 +200,14 @@ struct tuple<> {
 
     constexpr auto swap(tuple& /*other*/) noexcept -> void { }
 };
+
+/// \brief Swaps the contents of lhs and rhs element by element. Equivalent to lhs.swap(rhs).
+template <typename... Ts>
+    requires((is_swappable_v<Ts> and ...))
+constexpr auto swap(tuple<Ts...>& lhs, tuple<Ts...>& rhs) noexcept(noexcept(lhs.swap(rhs))) -> void
+{
+    lhs.swap(rhs);
+}
 
 template <etl::size_t I, typename... Ts>
 struct tuple_element<I, tuple<Ts...>> {
